@@ -70,6 +70,9 @@ func c15Direct(c *Ctx) {
 		sizes = append(sizes, i)
 	}
 	sizes = append(sizes, c15Chunk-1, c15Chunk, c15Chunk+1, 2*c15Chunk-1, 2*c15Chunk, 2*c15Chunk+1, 3*c15Chunk+5)
+	// streams of 32 MiB and 64 MiB and a little: 64 x their length (the decompressor's cap on
+	// what it reserves for a block) passes 2^31 and 2^32 - in the GOARCH=386 pass beyond int
+	sizes = append(sizes, 1<<25+4096, 1<<26+4096)
 	roundtrip := func(unit string, bufs [][]byte, payload []byte) {
 		if c.Filter != "" && c.Filter != unit {
 			return
